@@ -60,6 +60,7 @@ class World:
         self.merges = []
         self.prov = {}         # n -> {'review_for': sha, 'status_for': {ctx: sha}}
         self.fail_after = None
+        self.racing_push = None     # PR number whose branch gets a push just before CI's next merge request reaches GitHub
         self.fetched = 0
         self.posts = []
 
@@ -132,8 +133,15 @@ class FakeGH:
         assert m, url
         n = int(m.group(1))
         p = w.prs[n]
-        if not p['open'] or p['head'] != data['sha']:
+        if w.racing_push == n and p['open']:
+            p['head'] = w.fresh()
+            p['statuses'] = {}
+            w.racing_push = None
+        # GitHub's merge API: `sha` is optional - "SHA that pull request head must match to allow merge"; without it the current head is merged
+        sent = (data or {}).get('sha')
+        if not p['open'] or (sent is not None and p['head'] != sent):
             raise gidgethub.HTTPException('409 head branch was modified / not mergeable')
+        data = dict(data or {}, sha=p['head'])
         pr = WB.prs[n]
         b = pr.batch
         truth = None
@@ -294,6 +302,8 @@ async def apply_event(w, gh, bc, db, ev, mode):
             w.prs[ev[1]]['statuses'][ev[2]] = ev[3]
     elif k == 'TargetMove':
         w.target = w.fresh()
+    elif k == 'RacingPush':        # oracle-only event (no model counterpart): see World.racing_push
+        w.racing_push = ev[1]
     elif k == 'BatchComplete':
         for b in sorted(w.batches, key=lambda x: -x['id']):
             if b['attributes'].get('pr') == str(ev[1]) and b['state'] == 'running':
